@@ -5,7 +5,7 @@ from rules import common
 
 CLAIMED = True
 TECHNIQUE = "static analysis over type-checked MIR: serializer-constructor identity (compact), write inventory and ordering on the writer parameter, key/skip table of the derived Serialize impl, provenance of the Message fields from Record accessors, escaper-only output in the hand-written Serialize impls"
-LEVEL_TEXT = """Static, all-paths decision of the structural clauses (serde_json's escaping and number/string round trip are trusted, not decided): (J1) the serializer is built with serde_json::Serializer::new (compact formatter) on the writer parameter; no pretty/with_formatter constructor anywhere in the module; (J2) the only uses of the writer in encode_inner are that serializer and, after the serialize call's success edge, exactly one write_all of NEWLINE on every Ok path — nothing before, between or after; (J3) the derived Serialize for Message emits the keys time, level, message, module_path, file, line, target, thread, thread_id, mdc in that order, skip_field is guarded by Option::is_none exactly for module_path, file and line, and those three fields of the Message aggregate come straight from Record::{module_path,file,line} (no unwrap_or placeholder); level/target/args/thread likewise from their accessors; (J4) time and message go through Serializer::collect_str, the MDC serialiser uses serialize_map/serialize_key/serialize_value for every log_mdc::iter entry and keeps the first error, and no raw io::Write call occurs inside a Serialize impl of the module."""
+LEVEL_TEXT = """Static, all-paths decision of the structural clauses (serde_json's escaping and number/string round trip are trusted, not decided): (J1) the serializer is built with serde_json::Serializer::new (compact formatter) on the writer parameter; no pretty/with_formatter constructor anywhere in the module; (J2) the only uses of the writer in encode_inner are that serializer and, after the serialize call's success edge, exactly one write_all of NEWLINE on every Ok path — nothing before, between or after; (J3) the derived Serialize for Message emits the keys time, level, message, module_path, file, line, target, thread, thread_id, mdc in that order, skip_field is guarded by Option::is_none exactly for module_path, file and line, and those three fields of the Message aggregate come straight from Record::{module_path,file,line} (no unwrap_or placeholder); level/target/args/thread likewise from their accessors; (J4) time and message go through Serializer::collect_str, the MDC serialiser uses serialize_map/serialize_key/serialize_value for every log_mdc::iter entry and keeps the first error, and no raw io::Write call occurs inside a Serialize impl of the module. (J9) with the rolling appender: its writer's file field is used only as the receiver of write-family/flush calls - never unwrapped or bypassed (C05.R7 re-evaluated)."""
 LEVEL_NOTE = "Trusted: rustc MIR/callee resolution; serde's derive output (as compiled) and serde_json's escaping/formatting; log_mdc::iter visits every entry."
 EXPLANATION = """Decided: J1 compact serializer, J2 exactly one trailing newline, J3 field/skip table and field provenance, J4 everything passes the escaper. Undecided: serde_json's escaping and exact round trip of strings/numbers."""
 DECIDED = ["J1", "J2", "J3", "J4", "J5/J6 sink-side premise: the rolling appender reopens in append mode unless it truncates (C05.R5 re-evaluated)"]
@@ -82,12 +82,16 @@ def run_cfg(ctx, p, cfg):
     rule_console_stream_exclusive(ctx, p, cfg, "J7")
     if "file_appender" in p.meta.get("features", []):
         from rules import c04
+        c04.rule_ack_flushed(ctx, p, cfg, "J10")   # "one record, one line" in the file and not in a buffer: whatever the level, the line has been flushed when append returns (C04.R2 re-evaluated)
         c04.rule_open_options(ctx, p, cfg, "J8")   # sink-side premise: lines written through several handles on one file do not overwrite each other (O_APPEND; C04.R4 re-evaluated)
     if "rolling_file_appender" in p.meta.get("features", []):
         # sink-side premise of "one record, one line": the file the lines go to is reopened in append mode unless it was just
         # truncated, so a line is never written over lines that are kept (C05.R5 re-evaluated)
         from rules import rolling
         rolling.rule_reopen(ctx, p, cfg, "J6")
+        # ... and every byte of a line goes through the one buffered handle, in order: a line never overtakes an earlier one
+        # still sitting in the buffer (C05.R7 re-evaluated)
+        rolling.rule_writer_handle(ctx, p, cfg, "J9")
     with ctx.rule("J1", "compact formatter", cfg) as r:
         f = inner_fn(p)
         ctors = [c for c in f.calls() if (c.callee or "").startswith("serde_json::ser::Serializer")]
